@@ -221,6 +221,21 @@ func execRing[T any](capacity int, ops []ringOp, conv func(ringOp) T, show func(
 	r := helper.NewRing[T](capacity)
 	outs := make([]string, len(ops))
 	for i, o := range ops {
+		func() {
+			// a panic inside the implementation is an observation (never what the model returns for an in-domain call)
+			defer func() {
+				if recover() != nil {
+					outs[i] = "ONone"
+				}
+			}()
+			execRingOp(r, i, o, outs, conv, show)
+		}()
+	}
+	return outs
+}
+
+func execRingOp[T any](r *helper.Ring[T], i int, o ringOp, outs []string, conv func(ringOp) T, show func(T) string) {
+	{
 		switch o.Kind {
 		case "put":
 			outs[i] = "OVal " + show(r.Put(conv(o)))
@@ -239,7 +254,6 @@ func execRing[T any](capacity int, ops []ringOp, conv func(ringOp) T, show func(
 			outs[i] = "OBool " + coqBool(r.IsEmpty())
 		}
 	}
-	return outs
 }
 
 func (c *Ctx) ringCase(typ string, capacity int, ops []ringOp) {
